@@ -277,6 +277,74 @@ func runC07(r *Run, p *Prog) {
 				"the name "+d.what+" can contain '_' inside: for an interface name whose last word is `test`, a GOOS or a GOARCH the file is *_test.go or *_<GOOS/GOARCH>.go, which go build ignores or excludes - the emitted file does not build as a package")
 		}
 	})
+	// ---- G11: separators of emitted lists. In a loop over a list with an index, the statement that writes a bare
+	// separator (", " and the like) under a test of the index uses one of the two idioms - not the last element
+	// (`i != len(X)-1`, `i < len(X)-1`, `i+1 < len(X)`) with the separator after the element, or not the first
+	// (`i > 0`, `i != 0`) with the separator before it. Anything else (`i == len(X)-1`, `i != len(X)+1`) puts the
+	// separators in the wrong places: the emitted argument or parameter list does not parse.
+	r.Guard("G11", func() {
+		info := p.Pkgs[pkgGen].TypesInfo
+		n := 0
+		norm := func(e ast.Expr) string { return strings.ReplaceAll(types.ExprString(e), " ", "") }
+		for _, fd := range w.decls() {
+			if fd.Body == nil {
+				continue
+			}
+			ast.Inspect(fd.Body, func(nd ast.Node) bool {
+				rs, ok := nd.(*ast.RangeStmt)
+				if !ok || rs.Key == nil {
+					return true
+				}
+				ki, ok := rs.Key.(*ast.Ident)
+				if !ok || ki.Name == "_" {
+					return true
+				}
+				i := ki.Name
+				X := norm(rs.X)
+				for pos, st := range rs.Body.List {
+					is, ok := st.(*ast.IfStmt)
+					if !ok || is.Else != nil || len(is.Body.List) != 1 || is.Init != nil {
+						continue
+					}
+					es, ok := is.Body.List[0].(*ast.ExprStmt)
+					if !ok {
+						continue
+					}
+					call, ok := es.X.(*ast.CallExpr)
+					if !ok || len(call.Args) == 0 {
+						continue
+					}
+					tv, ok := info.Types[call.Args[len(call.Args)-1]]
+					if !ok || tv.Value == nil || tv.Value.Kind() != constant.String {
+						continue
+					}
+					sep := constant.StringVal(tv.Value)
+					if sep == "" || strings.ContainsAny(sep, "abcdefghijklmnopqrstuvwxyzABCDEFGHIJKLMNOPQRSTUVWXYZ0123456789_{}()") {
+						continue // not a bare separator
+					}
+					if !strings.Contains(norm(is.Cond), i) {
+						continue // not a test of the index
+					}
+					n++
+					c := norm(is.Cond)
+					notLast := c == i+"!=len("+X+")-1" || c == i+"<len("+X+")-1" || c == i+"+1<len("+X+")" || c == i+"+1!=len("+X+")" || c == "len("+X+")-1!="+i || c == "len("+X+")-1>"+i
+					notFirst := c == i+">0" || c == i+"!=0" || c == i+">=1" || c == "0<"+i || c == "0!="+i
+					okPos := notLast && pos > 0 || notFirst && pos < len(rs.Body.List)-1 || notFirst && pos == 0
+					r.Ob("G11", fd.Name.Name, fmt.Sprintf("separator %q in the loop over %s is written between the elements", sep, types.ExprString(rs.X)), is.Pos(), (notLast || notFirst) && okPos,
+						"the separator is written under `"+types.ExprString(is.Cond)+"`, which is neither `not the last element` after the element nor `not the first element` before it: the emitted list has its separators in the wrong places (a trailing or missing comma) and does not parse")
+				}
+				return true
+			})
+		}
+		r.Stat("G11_separators", n)
+	})
+	// ---- G12: error discipline of the generator (errdisc.go): a description that does not parse, an output that does
+	// not format, a file that cannot be read or written is never carried on with
+	r.Guard("G12", func() {
+		ro := DiscoverRoles(p)
+		errorDiscipline(r, p, ro.T, "G12", p.FuncsOf(pkgGen))
+		r.Floor("G12", 3)
+	})
 	// ---- G10: identifiers of the emitted code (gentokens.go)
 	r.Guard("G10", func() { emittedIdentifierRules(r, w, root) })
 	// ---- G9: a composite literal of a type declared from the description (`&<ErrorName>{}`) type-checks only if that
